@@ -219,6 +219,9 @@ func verifHTTPGet(c *agdhttp.Client, ctx context.Context, u *url.URL) (*http.Res
 	case verifFaultStatus500:
 		resp.StatusCode = http.StatusInternalServerError
 		body.data = "oops"
+	case verifFaultStatus206:
+		resp.StatusCode = http.StatusPartialContent
+		body.data = verifServed[:9]
 	case verifFaultEmptyBody:
 		body.data = ""
 	case verifFaultOversized:
